@@ -35,7 +35,7 @@ Lemma claim_uptimes_spec : forall d id age isc ups outs uts ups' col forf byup,
     2 * lsum2 (owedAO d id) ups' outs + 2 * (T * P18 * P18) <= 2 * lsum2 (owedAO d id) ups outs + Z.of_nat (length ups) * P18 /\
     0 <= pr_sel d col /\ 0 <= pr_sel d forf /\ 0 <= lsum byup d /\
     pr_sel d col * isc * P18 + lsum byup d * P18 * P18 <= T * P18 * P18 /\
-    (pr_sel d col + pr_sel d forf) * isc * P18 <= T * P18 * P18.
+    (pr_sel d col + pr_sel d forf) * isc * P18 <= T * P18 * P18 /\ lsum2 (owedAO d id) ups' outs = 0.
 Proof.
   intros d id age isc. pose proof P18_pos as HP.
   induction ups as [|a ups IH]; intros outs uts ups' col forf byup H Hi PS; destruct outs as [|o outs]; destruct uts as [|ut uts]; simpl in H; try discriminate H.
@@ -44,7 +44,7 @@ Proof.
     + exists 0. simpl. destruct d; simpl; lia.
   - inversion PS as [|? ? PSa PSr]; subst.
     destruct (claim_uptimes ups outs uts id age isc) as [[[[ar col0] forf0] byup0]|] eqn:ER; [|discriminate H]. cbv beta iota in H.
-    destruct (IH _ _ _ _ _ _ ER Hi PSr) as [L1 [L2 [L3 [PW [T [T0 [INEQ [C0 [F0 [B0 [RD FO]]]]]]]]]]].
+    destruct (IH _ _ _ _ _ _ ER Hi PSr) as [L1 [L2 [L3 [PW [T [T0 [INEQ [C0 [F0 [B0 [RD [FO ZR]]]]]]]]]]]].
     destruct (acc_has a id) eqn:EH.
     + destruct (update_accum_and_claim a id o) as [[[a' scaled] dust]|] eqn:EU; [|discriminate H]. cbv beta iota in H.
       destruct (scale_down2 scaled isc) as [coins|] eqn:ESD; [|discriminate H]. cbv beta iota in H.
@@ -75,18 +75,19 @@ Proof.
       * split; [simpl; lia|]. split; [simpl; lia|]. split; [simpl; lia|]. split; [exact PWH|].
         exists (T + tr). split; [lia|]. cbn [lsum2 lsum length]. rewrite NEW, OLD, Nat2Z.inj_succ.
         assert (PF : pr_sel d (fst forf0 + fst coins, snd forf0 + snd coins) = pr_sel d forf0 + pr_sel d coins) by (destruct d; reflexivity).
-        rewrite PF. fold tr. repeat split; try lia; nia.
+        rewrite PF. fold tr. rewrite ZR. repeat split; try lia; nia.
       * split; [simpl; lia|]. split; [simpl; lia|]. split; [simpl; lia|]. split; [exact PWH|].
         exists (T + tr). split; [lia|]. cbn [lsum2 lsum length]. rewrite NEW, OLD, Nat2Z.inj_succ.
         assert (PF : pr_sel d (fst col0 + fst coins, snd col0 + snd coins) = pr_sel d col0 + pr_sel d coins) by (destruct d; reflexivity).
-        rewrite PF. assert (Z0 : pr_sel d (0, 0) = 0) by (destruct d; reflexivity). rewrite Z0. repeat split; try lia; nia.
+        rewrite PF. assert (Z0 : pr_sel d (0, 0) = 0) by (destruct d; reflexivity). rewrite Z0, ZR. repeat split; try lia; nia.
     + inversion H; subst ups' col forf byup; clear H.
       unfold acc_has in EH. destruct (acc_get a id) as [r|] eqn:R; [discriminate EH|].
       split; [simpl; lia|]. split; [simpl; lia|]. split; [simpl; lia|]. split.
       * intro u. destruct u as [|u]; [|apply PW]. cbn [nth]. split; [apply same_other_refl|]. split; [reflexivity|]. split; [reflexivity|].
         split; [intros r0 X; congruence|auto].
       * exists T. split; [exact T0|]. cbn [lsum2 lsum length]. rewrite Nat2Z.inj_succ.
-        assert (Z0 : pr_sel d (0, 0) = 0) by (destruct d; reflexivity). rewrite Z0. repeat split; try lia.
+        assert (Z0 : pr_sel d (0, 0) = 0) by (destruct d; reflexivity). rewrite Z0, ZR.
+        assert (OA : owedAO d id a o = 0) by (unfold owedAO; rewrite R; reflexivity). rewrite OA. repeat split; try lia.
 Qed.
 
 (* ---------- share change over the accumulators ---------- *)
